@@ -782,7 +782,7 @@ fn c03_case(args: &Args, report: &mut Report, rng: &mut Rng, case: u64) {
 
 pub fn run_c03(args: &Args, report: &mut Report) {
     let rng = Rng::new(args.seed).fork(0xC03).fork(args.shard);
-    let cases = if args.thorough { 400 } else { 36 };
+    let cases = if args.thorough { 400 } else { 50 };
     for case in 0..cases {
         let mut crng = rng.fork(case);
         c03_case(args, report, &mut crng, case);
